@@ -497,13 +497,13 @@ theorem diskFold_ok_of (created : Relevant) (coins : CoinMap) (l : List CoinID) 
       exact ⟨acc.set inp c, by simp [diskStep, hc, hcc], hd⟩
 
 theorem loadRel_ok_of {s : State} {txs : List Tx}
-    (hwf : ∀ tx ∈ txs, tx.isWellFormed = true ∧ tx.melTotalFits = true)
+    (hwf : ∀ tx ∈ txs, tx.isWellFormed = true ∧ tx.melTotalFits = true ∧ tx.covWeightsFit = true)
     (hnd : (txs.flatMap (·.inputs)).Nodup)
     (hin : ∀ inp ∈ txs.flatMap (·.inputs),
       (s.coins.getCoin inp).isSome ∨ ((createdOf s.height txs).get inp).isSome) :
     ∃ rel, loadRelevantCoins s txs = .ok rel := by
   rw [loadRelevantCoins_eq]
-  have hall : (txs.all fun tx => tx.isWellFormed && tx.melTotalFits) = true := by
+  have hall : (txs.all fun tx => tx.isWellFormed && tx.melTotalFits && tx.covWeightsFit) = true := by
     rw [List.all_eq_true]; intro tx htx; simp [hwf tx htx]
   obtain ⟨disk, hd⟩ := diskFold_ok_of _ _ _ hin []
   rw [hall, hd]
